@@ -23,14 +23,7 @@ STREAM_HDR = re.compile(rb"^\[monorail \| [a-z., ]+ \| .*? \| .*?\]$")
 
 
 def port_listening(port):
-    s = socket.socket()
-    try:
-        s.bind(("127.0.0.1", port))
-    except OSError:
-        return True
-    finally:
-        s.close()
-    return False
+    return sc.port_listening(port)
 
 
 LONG = {}
@@ -91,6 +84,12 @@ class Listener:
 # ------------------------------------------------------------------------------------------ C15
 
 TARGETS15 = [{"path": "a"}, {"path": "b"}, {"path": "c", "uses": ["a", "b"]}]
+# the same plan with long target paths made of 2- and 3-byte characters behind ASCII prefixes of
+# different lengths: whatever fixed byte offset (from the start or from the end) some code cuts a path at,
+# it falls inside a character of at least one of them
+LONG_A = "a-" + "\u00e9\u20ac" * 13
+LONG_B = "bb-" + "\u00e9\u20ac" * 13 + "x"
+TARGETS15_LONG = [{"path": LONG_A}, {"path": LONG_B}, {"path": "c", "uses": [LONG_A, LONG_B]}]
 FATES = ["never", "before_run", "during_handshake", "after_connect", "mid_output", "between_groups", "after_last_burst"]
 
 
@@ -98,7 +97,8 @@ def c15_run(desc):
     """One scenario; returns observation dict (statuses, failed, exit, logs) + engine notes."""
     s = sc.Scratch("c15")
     try:
-        r = sc.Repo(s, "r", TARGETS15, commands={t["path"]: {"build": "x"} for t in TARGETS15}, init_git=False)
+        T15 = TARGETS15_LONG if desc.get("names") == "long" else TARGETS15
+        r = sc.Repo(s, "r", T15, commands={t["path"]: {"build": "x"} for t in T15}, init_git=False)
         c = ctlmod.Controller(s)
         try:
             lis = None
@@ -112,7 +112,7 @@ def c15_run(desc):
                 # the listener is suspended: the run's connection is accepted by the kernel but the
                 # filter line never comes; then the listener is killed while the run is waiting for it
                 os.kill(lis.p.p.pid, signal.SIGSTOP)
-            p = c.spawn("run", [common.MONORAIL, "run", "-c", "build", "-t", "a", "b", "c", "--deps"], r.dir, s.env(c.env()))
+            p = c.spawn("run", [common.MONORAIL, "run", "-c", "build", "-t"] + [t["path"] for t in T15] + ["--deps"], r.dir, s.env(c.env()))
             killed = fate == "before_run"
             if lis is not None and fate == "during_handshake":
                 c.wait(lambda: len(c.waiting()) > 0 or p.done(), 1.0)   # nobody arrives while the handshake hangs
@@ -225,6 +225,11 @@ def c15_scenarios(tier):
     # clean SIGTERM variant
     for fate in FATES[1:]:
         out.append({"listener": ["--stdout", "--stderr"], "fate": fate, "term": True})
+    # long multi-byte target paths
+    for fate in ("never", "mid_output"):
+        out.append({"listener": None, "fate": fate, "names": "long"})
+        for cfg in (["--stdout", "--stderr"], ["--stdout", "-t", LONG_A], ["--stderr", "-t", LONG_B]):
+            out.append({"listener": cfg, "fate": fate, "names": "long"})
     return out
 
 
@@ -277,7 +282,8 @@ def c20_run(desc):
     s = sc.Scratch("c20")
     try:
         cmds = ["build", "test"]
-        r = sc.Repo(s, "r", TARGETS20, commands={t["path"]: {c: "x" for c in cmds} for t in TARGETS20}, init_git=False)
+        T20 = [{"path": LONG_A}, {"path": LONG_B}] if desc.get("names") == "long" else TARGETS20
+        r = sc.Repo(s, "r", T20, commands={t["path"]: {c: "x" for c in cmds} for t in T20}, init_git=False)
         c = ctlmod.Controller(s)
         try:
             flags = list(desc["streams"])
@@ -307,14 +313,15 @@ def c20_run(desc):
                 if mid_held and mid_held[0].state == "held":
                     h = mid_held[0]
                     contenders = [x for x in c.hits if x.name.startswith("stream.pre") and x.seq > h.seq]
-                    if (contenders and time.time() - h.t_held > 0.3) or time.time() - h.t_held > 1.5:
+                    grace = desc.get("hold_s", 0.3)
+                    if (contenders and time.time() - h.t_held > grace) or time.time() - h.t_held > grace + 1.2:
                         h.contended = bool(contenders)
                         c.resume(h)
             if hold:
                 c.auto_points = on_hit
                 c.tick_hook = release_rule
             env = s.env(c.env(points=points))
-            p = c.spawn("run", [common.MONORAIL, "run", "-c"] + cmds + ["-t", "a", B20, "--deps"], r.dir, env)
+            p = c.spawn("run", [common.MONORAIL, "run", "-c"] + cmds + ["-t"] + [t["path"] for t in T20] + ["--deps"], r.dir, env)
             viol = []
             nbursts = 2 if desc.get("short") else 3
             for cmd in cmds:
@@ -433,10 +440,17 @@ def c20_scenarios(tier):
     # and a line that merely looks like a (colourless) header
     for st in ("crlf", "odd-text"):
         out.append({"streams": ["--stdout", "--stderr"], "targets": [], "commands": [], "short": True, "style": st})
+    # both targets with long paths of 2- and 3-byte characters (different ASCII prefix and suffix lengths)
+    for s_, t, c in [(["--stdout", "--stderr"], [], []), (["--stdout"], [LONG_A], []), (["--stderr"], [LONG_B], ["build"])]:
+        out.append({"streams": s_, "targets": t, "commands": c, "short": True, "names": "long"})
     # held schedules: the first task to flush is held inside the critical section
     n = 6 if tier == "quick" else 24
     for i in range(n):
         out.append({"streams": ["--stdout", "--stderr"], "targets": [], "commands": [], "hold": True, "short": True, "rep": i})
+    # the same with a long stall (several flush periods): the tasks queued behind the held writer wait
+    # that long for the connection and must still deliver everything
+    for i in range(3 if tier == "quick" else 8):
+        out.append({"streams": ["--stdout", "--stderr"], "targets": [], "commands": [], "hold": True, "hold_s": 1.7, "short": True, "rep": i})
     return out
 
 
@@ -455,7 +469,7 @@ def run(prop, tier):
         errs = [r["engine_error"] for r in results if "engine_error" in r]
         if errs:
             raise common.EngineError("; ".join(errs[:2]))
-        bases = {(d["fate"], d.get("pattern")): r for d, r in zip(descs, results) if d["listener"] is None}
+        bases = {(d["fate"], d.get("pattern"), d.get("names")): r for d, r in zip(descs, results) if d["listener"] is None}
         for f, b in bases.items():
             if b.get("exit") != 0 or b.get("failed") is not False:
                 raise common.EngineError("listener-absent baseline for burst pattern %s is not a clean success: %s" % (f, json.dumps(b)[:400]))
@@ -467,12 +481,12 @@ def run(prop, tier):
                 continue
             if r.get("listener_saw"):
                 nontrivial += 1
-            for sig, detail in c15_compare(d, r, bases[(d["fate"], d.get("pattern"))]):
+            for sig, detail in c15_compare(d, r, bases[(d["fate"], d.get("pattern"), d.get("names"))]):
                 viol.append({"sig": sig, "detail": detail, "rank": FATES.index(d["fate"]) * 10 + len(d["listener"]), "case": {"c15": d}})
             if len(samples) < 5:
                 samples.append({"listener": d["listener"], "fate": d["fate"], "exit": r.get("exit"), "listener_bytes": r.get("listener_saw")})
         agg = {"evaluations": len(results), "distinct_nontrivial": nontrivial, "violations": viol, "samples": samples, "exhaustive": True,
-               "rule": "plan = 2 groups (a, b then c) with controlled children producing bursts on both streams separated by %.2fs (longer than the flush period); listener in {absent} + configurations (streams x target filter x command filter; quick: 4 of 18) x fate in %s (SIGKILL; plus SIGTERM for the unfiltered listener); a second output pattern ends every stream of the first group with an unterminated line that stays pending across a flush tick; after a kill the children produce at least two further bursts so that at least two flushes hit the dead connection; oracle: exit status, failed flag, statuses and decoded stored logs equal the listener-absent baseline of the same burst pattern, and no child is left running; non-trivial = scenarios in which the listener actually received bytes" % (GAP, FATES)}
+               "rule": "plan = 2 groups (a, b then c) with controlled children producing bursts on both streams separated by %.2fs (longer than the flush period); listener in {absent} + configurations (streams x target filter x command filter; quick: 4 of 18) x fate in %s (SIGKILL; plus SIGTERM for the unfiltered listener); a second output pattern ends every stream of the first group with an unterminated line that stays pending across a flush tick; a third family gives the first group 67- and 69-byte target paths made of 2- and 3-byte characters; after a kill the children produce at least two further bursts so that at least two flushes hit the dead connection; oracle: exit status, failed flag, statuses and decoded stored logs equal the listener-absent baseline of the same burst pattern, and no child is left running; non-trivial = scenarios in which the listener actually received bytes" % (GAP, FATES)}
     else:
         descs = c20_scenarios(tier)
         results = common.pmap(_worker, [("c20", d) for d in descs])
@@ -490,7 +504,7 @@ def run(prop, tier):
                "held_schedules_with_contender": sum(1 for r in good if r.get("contended")),
                "violations": [v for r in good for v in r["violations"]], "samples": [r["sample"] for r in good[:: max(1, len(good) // 5)]][:6],
                "exhaustive": True,
-               "rule": "filters: 2 targets x 2 commands x both streams with a listener for every (streams in 3) x (target subset in 4) x (command subset in 4) = 48 filter combinations, children writing newline-terminated text distinct per (stream, target, command) in bursts %.2fs apart (plus 4 scenarios in which every line is written in two parts with a flush tick in between); interleavings: the first task to reach stream.mid (header written, connection mutex held) is held there until another task has reached stream.pre behind it plus 0.3 s, then released; oracle: one stream header, every later line inside a header-introduced block, blocks only for admitted (stream, target, command), per key concatenation == stored log, and no second task at stream.mid while one is held; states/transitions = blocks relayed" % GAP}
+               "rule": "filters: 2 targets x 2 commands x both streams with a listener for every (streams in 3) x (target subset in 4) x (command subset in 4) = 48 filter combinations, children writing newline-terminated text distinct per (stream, target, command) in bursts %.2fs apart (plus 4 scenarios in which every line is written in two parts with a flush tick in between); interleavings: the first task to reach stream.mid (header written, connection mutex held) is held there until another task has reached stream.pre behind it plus 0.3 s (a second family: plus 1.7 s, several flush periods), then released; oracle: one stream header, every later line inside a header-introduced block, blocks only for admitted (stream, target, command), per key concatenation == stored log, and no second task at stream.mid while one is held; states/transitions = blocks relayed" % GAP}
     by = {}
     for v in agg["violations"]:
         by[v["sig"]] = by.get(v["sig"], 0) + 1
@@ -507,7 +521,7 @@ def replay(prop, path):
     if "c15" in case:
         d = case["c15"]
         # the burst pattern depends on the fate: the baseline is replayed with the same pattern
-        base = c15_run({"listener": None, "fate": d["fate"], "pattern": d.get("pattern")})
+        base = c15_run({"listener": None, "fate": d["fate"], "pattern": d.get("pattern"), "names": d.get("names")})
         obs = c15_run(d)
         if "engine_error" in obs or "engine_error" in base:
             print("ENGINE:", obs.get("engine_error") or base.get("engine_error"))
